@@ -73,10 +73,10 @@ def shell_input_roots(http):
 
 
 def check(ctx, rep):
-    rep.rule('R15.a', 'no function on the shell-input path calls a tabled panicking third-party constructor or unwraps', floor=8)
+    rep.rule('R15.a', 'no function on the shell-input path calls a tabled panicking third-party constructor or unwraps', floor=5)
     rep.rule('R15.b', 'Response::new returns HttpError::Http exactly on the client/server-error edges and otherwise copies status, headers, body', floor=6)
     rep.rule('R15.c', 'a shell-reported HttpResult::Err reaches the app unmodified in both APIs', floor=2)
-    rep.rule('R15.d', 'decoders turn every failure into an error value', floor=4)
+    rep.rule('R15.d', 'decoders turn every failure into an error value', floor=3)
     rep.rule('R15.e', 'only the shell\'s headers are written on the shell-input path', floor=2)
     cfgs = ['default'] + (['allfeat'] if ctx.has('allfeat') else [])
     for cfg in cfgs:
